@@ -51,8 +51,17 @@ def parse_parts(r, version):
     return parts
 
 
-async def run_all(ctx, tree, classes, rnd, out):
-    sq = squidctl.Squid(ctx, tree, name='c15', clock=False, cache_mem='64 MB', conf_extra='maximum_object_size_in_memory 1 MB\nrange_offset_limit none\n')
+async def run_all(ctx, tree, classes, rnd, out, store='mem'):
+    if store == 'mem':
+        sq = squidctl.Squid(ctx, tree, name='c15', clock=False, cache_mem='64 MB', conf_extra='maximum_object_size_in_memory 1 MB\nrange_offset_limit none\n')
+    else:
+        # every hit is read from the cache_dir (memory cache off)
+        sq = squidctl.Squid(ctx, tree, name='c15-' + store, clock=False, cache_mem='0 MB', conf_extra='range_offset_limit none\n')
+        d = os.path.join(sq.run, 'cd')
+        extra = 'maximum_object_size 16 MB\nminimum_object_size 0 KB\n' + ('cache_dir rock %s 64 max-size=4000000\n' % d if store == 'rock' else 'cache_dir %s %s 64 4 16\n' % (store, d))
+        sq.conf_text = sq.conf_text.replace('http_access allow all', extra + 'http_access allow all', 1)
+        open(sq.conf, 'w').write(sq.conf_text)
+        sq.init_dirs()
     sq.start()
     rec = peers.Rec()
     ver = {}
@@ -70,14 +79,14 @@ async def run_all(ctx, tree, classes, rnd, out):
         L = r0.choice(LENS)
         v = (n % 4000) + 1
         ver[n] = (L, v)
-        url = 'http://127.0.0.1:%d/r/%d' % (origin.port, n)
+        url = 'http://127.0.0.1:%d/r%s/%d' % (origin.port, store, n)
         specs = [spec_text(s, L, r0) for s in c['par']['specs']]
         if c['par']['cached']:
             await peers.simple_get(rec, sq.port, url, vid='%d.0' % n)
         sep = r0.choice([',', ', ', ' ,'])
         r = await peers.simple_get(rec, sq.port, url, headers=[('Range', 'bytes=' + sep.join(t for t, _ in specs))], vid='%d.1' % n)
         case = {'status': r.status or 0, 'specs': [s for _, s in specs], 'len': L, 'parts': [], 'fullOk': False,
-                'range': 'bytes=' + sep.join(t for t, _ in specs), 'cached': c['par']['cached'], 'pred': c['pred']}
+                'range': 'bytes=' + sep.join(t for t, _ in specs), 'cached': c['par']['cached'], 'pred': c['pred'], 'store': store}
         if r.status == 206:
             case['parts'] = parse_parts(r, v)
         elif r.status == 200:
@@ -111,12 +120,18 @@ def run(ctx):
     classes = classes + extra
     out = []
     asyncio.run(run_all(ctx, tree, classes, rnd, out))
+    # the same questions answered from a rock and a ufs cache_dir (a seeded sample of the cached classes; thorough: all of them)
+    cached = [c for c in classes if c['par']['cached']]
+    for store in ('rock', 'ufs'):
+        pick = cached if ctx.thorough else random.Random(ctx.seed * 17 + len(store)).sample(cached, min(200, len(cached)))
+        asyncio.run(run_all(ctx, tree, pick, rnd, out, store=store))
+    ctx.cov['by_store'] = {st: sum(1 for c in out if c['store'] == st) for st in ('mem', 'rock', 'ufs')}
     cases = [{k: c[k] for k in ('status', 'specs', 'len', 'parts', 'fullOk')} for c in out]
     prej, _ = ucheck.conformance(ctx, os.path.join(SPEC, 'Conf_RangeResp.tla'), os.path.join(SPEC, 'Conf_RangeResp.cfg'), cases, 'range')
     ctx.log('realised %d range requests; P-rejected %d' % (len(out), len(prej)))
     for i in prej[:5]:
         c = out[i]
-        ctx.violation('range answer is not what RangeResp.tla allows: Range: %s on %d bytes (cached=%s) -> %s %s' % (c['range'], c['len'], c['cached'], c['status'], json.dumps(c['parts'])),
+        ctx.violation('range answer is not what RangeResp.tla allows (%s): Range: %s on %d bytes (cached=%s) -> %s %s' % (c['store'], c['range'], c['len'], c['cached'], c['status'], json.dumps(c['parts'])),
                       {'kind': 'range', 'case': c})
     nd = 0
     for c in out:
@@ -130,6 +145,6 @@ def run(ctx):
     ctx.cov['multipart_206'] = sum(1 for c in out if c['status'] == 206 and len(c['parts']) > 1)
     for c in out[:2]:
         ctx.sample(c)
-    ctx.cov['rule'] = ('classes = RangeScen.tla: every list of one or two range-specs (first-last, first-, -suffix) over positions {0,1,mid,L-1,L,L+10}, cached or not, '
+    ctx.cov['rule'] = ('classes = RangeScen.tla: every list of one or two range-specs (first-last, first-, -suffix) over positions {0,1,mid,L-1,L,L+10}, cached or not (memory cache; a sample also from a rock and a ufs cache_dir), '
                        'plus seeded three-spec lists; object lengths on the lattice; each answer (single part, multipart/byteranges, 200, 416) is parsed by the '
                        'driver and judged by TLC with RangeResp.tla. Non-trivial = distinct (Range header, length, cached).')
